@@ -217,6 +217,51 @@ func runC16(c *core.Ctx) core.Meta {
 		}
 	}
 
+	// R16.7 a finished lookup is removed from the table by identity
+	st7 := c.Rule("R16.7", "lookups are coalesced per page and per process, so several pending transactions can carry the same virtual page: wherever an entry is cut out of Comp.transactions (append(t[:i], t[i+1:]...)), the entry was selected by pointer equality with the transaction that is being finished (a *transaction parameter), not by a key such as the page address. A removal by page takes out another process's pending lookup when replies arrive out of order; its accesses are never forwarded and never answered", 1)
+	p.Instrs(func(fn *ssa.Function, in ssa.Instruction) {
+		s, ok := storeToField(in, "Comp.transactions")
+		if !ok {
+			return
+		}
+		call, ok := s.Val.(*ssa.Call)
+		if !ok || !core.IsBuiltin(call, "append") || len(call.Call.Args) != 2 {
+			return
+		}
+		if _, isSl := call.Call.Args[0].(*ssa.Slice); !isSl {
+			return
+		}
+		if _, isSl := call.Call.Args[1].(*ssa.Slice); !isSl {
+			return
+		}
+		st7.Instances++
+		c.MarkAnalysed(fn)
+		g := core.BuildGraph(fn, 0, nil)
+		n := g.NodeOf(in)
+		okID := n != nil && g.Guarded(n, CmpCut(func(_ *core.Node, op token.Token, x, y ssa.Value) int {
+			isParam := func(v ssa.Value) bool {
+				prm, ok := core.StripConv(v).(*ssa.Parameter)
+				return ok && namedTypeName(prm.Type()) == "addresstranslator.transaction"
+			}
+			isElem := func(v ssa.Value) bool { return strings.Contains(prov.Of(v), ".transactions[") }
+			if !(isParam(x) && isElem(y)) && !(isParam(y) && isElem(x)) {
+				return 0
+			}
+			switch op {
+			case token.EQL:
+				return 1
+			case token.NEQ:
+				return -1
+			}
+			return 0
+		}))
+		st7.Ob(okID)
+		st7.Sample("%s: entry cut out of Comp.transactions selected by identity: %v", core.FuncName(fn), okID)
+		if !okID {
+			c.ReportAt("R16.7", fn, in.Pos(), "removed-by-key", core.FuncName(fn)+" cuts an entry out of Comp.transactions that was not selected by pointer equality with the transaction being finished: with two processes waiting for the same virtual page, the reply that arrives first removes the other process's pending lookup")
+		}
+	})
+
 	// R16.5 flush: pipeline gated by isFlushing; flush clears both tables
 	// R16.6 nothing cached in a field survives a flush (flushstate.go)
 	checkFlushResets(c, "R16.6", atPkg, "Comp", []string{"middleware.runPipeline"}, []string{"middleware.handleCtrlRequest"}, 8)
